@@ -348,7 +348,7 @@ def grid_for(varnames):
         return [{vs[0]: a, vs[1]: b} for a in GRID2_X for b in GRID2_Y]
     if len(vs) == 3:
         return [{vs[0]: a, vs[1]: b, vs[2]: c} for a in GRID3[0] for b in GRID3[1] for c in GRID3[2]]
-    base = (-1, 0.5, 2)
+    base = (-1, 0.5, 2) if len(vs) == 4 else (-1, 2)
     return [dict(zip(vs, combo)) for combo in itertools.product(base, repeat=len(vs))]
 
 
